@@ -55,6 +55,8 @@ pub struct Sim {
     /// mutations reported by the last prepare() and the local store just before its commit()
     pub last_muts: Vec<(String, (u64, Vec<u8>))>,
     pub last_pre_commit: BTreeMap<String, (u64, Vec<u8>)>,
+    /// counterparty commitment numbers that were signed for a rogue point
+    pub rogue: std::collections::BTreeSet<u64>,
 }
 
 fn services(persister: Arc<dyn Persist>, clock: Arc<ManualClock>) -> NodeServices {
@@ -77,6 +79,18 @@ pub fn cp_secret(n: u64) -> SecretKey {
 
 pub fn cp_point(n: u64) -> PublicKey {
     PublicKey::from_secret_key(&Secp256k1::new(), &cp_secret(n))
+}
+
+/// A counterparty that does not derive its secrets as BOLT-3 requires: the secret matches the point
+/// it had us sign for, but does not chain with its other secrets.
+pub fn rogue_secret(n: u64) -> SecretKey {
+    let mut b = [0x42u8; 32];
+    b[24..].copy_from_slice(&n.to_be_bytes());
+    SecretKey::from_slice(&b).unwrap()
+}
+
+pub fn rogue_point(n: u64) -> PublicKey {
+    PublicKey::from_secret_key(&Secp256k1::new(), &rogue_secret(n))
 }
 
 #[derive(Clone, Debug, PartialEq)]
@@ -168,6 +182,7 @@ impl Sim {
             pending_muts_after_err: 0,
             last_muts: vec![],
             last_pre_commit: BTreeMap::new(),
+            rogue: Default::default(),
         }
     }
 
@@ -243,6 +258,10 @@ impl Sim {
     }
 
     pub fn sign_cp(&mut self, d: i64, var: u64) -> (Outcome, usize) {
+        self.sign_cp_with(d, var, false)
+    }
+
+    pub fn sign_cp_with(&mut self, d: i64, var: u64, rogue: bool) -> (Outcome, usize) {
         let (_, _, _, cpn, _) = self.counters();
         let n = (cpn as i64 + d).max(0) as u64;
         let (a, b, offered, received, feerate) = self.content(var);
@@ -250,19 +269,45 @@ impl Sim {
         // give everything (minus fee) to the funder (us) and carry no HTLC
         let (to_holder, to_counterparty, offered, received) =
             if n == 0 { (CHANNEL_VALUE - 1_000, 0, vec![], vec![]) } else { (a, b, received, offered) };
-        let point = cp_point(n);
-        self.txn(|s| {
+        // a number once signed for a rogue point keeps it (a retry must present the same point)
+        let use_rogue = if self.rogue.contains(&n) { true } else { rogue && n >= cpn };
+        let point = if use_rogue { rogue_point(n) } else { cp_point(n) };
+        let r = self.txn(|s| {
             s.node().with_channel(&s.chan_ctx.channel_id, |chan| {
                 chan.sign_counterparty_commitment_tx_phase2(&point, n, if n == 0 { 0 } else { feerate }, to_holder, to_counterparty, offered.clone(), received.clone()).map(|_| ())
             })
-        })
+        });
+        if r.0 == Outcome::Ok && use_rogue {
+            self.rogue.insert(n);
+        }
+        r
     }
 
     pub fn cp_revoke(&mut self, d: i64, good: bool) -> (Outcome, usize) {
         let (_, _, _, _, rn) = self.counters();
         let n = (rn as i64 + d).max(0) as u64;
-        let secret = if good { cp_secret(n) } else { cp_secret(n + 7) };
+        let right = if self.rogue.contains(&n) { rogue_secret(n) } else { cp_secret(n) };
+        let secret = if good { right } else { cp_secret(n + 7) };
         self.txn(|s| s.node().with_channel(&s.chan_ctx.channel_id, |chan| chan.validate_counterparty_revocation(n, &secret)))
+    }
+
+    /// Re-submit the channel's funding transaction for signing; `good = false` gives one wallet input a
+    /// derivation path of the wrong length, which the signing step (after the policy check) refuses.
+    pub fn onchain_sign(&mut self, good: bool) -> (Outcome, usize) {
+        self.txn(|s| {
+            let incoming = CHANNEL_VALUE + 2_000_000;
+            let change = incoming - CHANNEL_VALUE - 1000;
+            let mut tx_ctx = TestFundingTxContext::new();
+            tx_ctx.add_wallet_input(&s.node_ctx, SpendType::P2wpkh, 1, incoming);
+            tx_ctx.add_wallet_output(&s.node_ctx, SpendType::P2wpkh, 1, change);
+            tx_ctx.add_channel_outpoint(&s.node_ctx, &s.chan_ctx, CHANNEL_VALUE);
+            let tx = tx_ctx.to_tx();
+            if !good {
+                use lightning_signer::bitcoin::bip32::ChildNumber;
+                tx_ctx.ipaths[0] = DerivationPath::from(vec![ChildNumber::from_normal_idx(1).unwrap(), ChildNumber::from_normal_idx(2).unwrap()]);
+            }
+            tx_ctx.sign(&s.node_ctx, &tx).map(|_| ())
+        })
     }
 
     pub fn sign_holder(&mut self, d: i64) -> (Outcome, usize) {
@@ -465,6 +510,7 @@ pub fn view(node: &Node, durable_only: bool) -> BTreeMap<String, String> {
         // velocity: compared as (limit, total) — a refused insert only re-expresses the same
         // history at a later epoch (proved in Props/C12), which is not a state change
         m.insert("node.velocity".into(), format!("{} {}", st.velocity_control.limit, st.velocity_control.velocity()));
+        m.insert("node.fee_velocity".into(), format!("{} {}", st.fee_velocity_control.limit, st.fee_velocity_control.velocity()));
         if !durable_only {
             let mut pays: Vec<String> = st.payments.iter().map(|(h, p)| format!("{}:{:?}", hex::encode(h.0), p)).collect();
             pays.sort();
@@ -524,6 +570,8 @@ pub fn exec_op(sim: &mut Sim, op: &str) -> (Outcome, usize) {
         ["vh", d, sig, var] => sim.validate_holder(num(d), *sig == "g", num(var) as u64),
         ["rv", d] => sim.revoke(num(d)),
         ["scp", d, var] => sim.sign_cp(num(d), num(var) as u64),
+        ["scpr", d, var] => sim.sign_cp_with(num(d), num(var) as u64, true),
+        ["osign", g] => sim.onchain_sign(*g == "g"),
         ["cpr", d, g] => sim.cp_revoke(num(d), *g == "g"),
         ["sh", d] => sim.sign_holder(num(d)),
         ["mc", g] => sim.mutual_close(*g == "g"),
@@ -565,6 +613,20 @@ pub fn gen_ops(rng: &mut Rng, len: usize) -> Vec<String> {
                 for _ in 0..rng.range(2, 5) {
                     ops.push(format!("ks {}", *rng.pick(&[1000u64, 2000, 5_000_000])));
                 }
+                continue;
+            }
+            6 => {
+                // a counterparty whose secrets do not chain: sign n and n+1 for rogue points, then it
+                // "revokes" with secrets that match those points
+                ops.push(format!("scp{} 0 {}", if rng.chance(1, 2) { "r" } else { "" }, rng.below(9)));
+                ops.push(format!("scpr 0 {}", rng.below(9)));
+                ops.push("cpr 0 g".to_string());
+                ops.push(format!("scp{} 0 {}", if rng.chance(1, 2) { "r" } else { "" }, rng.below(9)));
+                ops.push("cpr 0 g".to_string());
+                continue;
+            }
+            7 if ops.len() < 3 => {
+                ops.push(format!("osign {}", if rng.chance(1, 2) { "g" } else { "b" }));
                 continue;
             }
             5 => {
